@@ -84,7 +84,7 @@ class StrOps:
             try:
                 return int(v, base)
             except ValueError:
-                raise Raise(ValueError, 'int(%r)' % v[:20])
+                raise Raise(ValueError, 'int() of text that is no base-%d literal' % base)
         if not isinstance(v, FixedStr):
             raise Unsupported('int(%r)' % type(v))
         chars = v.chars
@@ -442,8 +442,11 @@ class StrOps:
             if d.subset(stable):
                 out.append(ch)
                 continue
-            if kind == 'lower' and d.contains(0x3A3):
-                raise Unsupported('lower() with a possible final sigma')
+            if kind == 'lower' and d.contains(0x3A3) and ctx.branch(Eq(ch, 0x3A3)):
+                # final-sigma rule: the result is one of the two small sigmas depending on the context
+                ctx.mark_approx('lower() of a capital sigma (context dependent)')
+                out.append(ctx.fresh_char(ISet([(0x3C2, 0x3C3)]), 'u'))
+                continue
             if ctx.branch(in_set(ch, stable)):
                 out.append(ch)
                 continue
